@@ -121,6 +121,19 @@ def generate(seed: int, tier: str) -> dict:
             for p2 in docs[d]["probes"][:2]:
                 events.append({"ev": "resolve", "d": d, "probe": p2})
             held[d] = 0
+        elif r < 0.80 and len(live) >= 2:
+            # a value travels: the expression object found under a probe of one document is assigned into another
+            # document, then read there - it must mean what the text of its new home says (or fail explicitly), never
+            # what it meant where it came from
+            tag += 1
+            d2 = rng.choice(sorted(x for x in live if x != d))
+            probe = rng.choice(docs[d]["probes"])
+            key = "mv%d" % tag
+            events.append({"ev": "resolve", "d": d, "probe": probe})  # the source resolves it first: its chain is stored
+            events.append({"ev": "move", "d": d, "to": d2, "probe": probe[:1], "key": key})
+            events.append({"ev": "resolve", "d": d2, "probe": [key] + list(probe[1:])})
+            events.append({"ev": "resolve", "d": d, "probe": probe})
+            held[d2] = 0
         elif r < 0.82:
             events.append({"ev": "inherit_copy", "d": d, "name": rng.choice(scopegen.NAMES)})
         elif r < 0.92:
@@ -203,7 +216,16 @@ def execute(case: dict):
             return
         if got_kind == "value":
             tag = _tag_of(got_tokens)
-            if tag is not None and tag != case["base"] + d:
+            here = ""
+            if tag is not None and tag != case["base"] + d and live.get(d) is not None:
+                # (a literal that travelled into this document with a moved value belongs to it now)
+                try:
+                    here = live[d].rebuild()
+                except Exception:  # noqa: BLE001
+                    here = ""
+            if tag is not None and tag != case["base"] + d and any(t.isdigit() and len(t) >= 6 and t in here for t in got_tokens):
+                bump("probe:moved_literal_answers_in_new_home")
+            elif tag is not None and tag != case["base"] + d:
                 viols.append(Violation("C10.foreign_value", "resolution of %s in document %d answered %r, a literal of document %d" % (what, d, got_tokens, tag - case["base"]), step, facts))
                 return
         if exp is None:
@@ -407,6 +429,18 @@ def execute(case: dict):
                     bump("scope_edit:ok")
                 except Exception:  # noqa: BLE001 - refusals are C08's business
                     bump("scope_edit:refused")
+            elif kind == "move":
+                dst = live.get(ev["to"])
+                if dst is None:
+                    bump("skip:move_target_not_live")
+                    continue
+                try:
+                    val = src[ev["probe"][0]]
+                    dst[ev["key"]] = val
+                    holds[ev["to"]] = []
+                    bump("move:ok")
+                except Exception as e:  # noqa: BLE001 - the target is not a plain mapping (call argument ...): nothing moved
+                    bump("move:refused:" + type(e).__name__)
             elif kind == "scope_rename":
                 from nix_manipulator.cli.manipulations import remove_value
 
